@@ -190,3 +190,57 @@ pub mod n6 {
         v == 0.0 || v < 0.0
     }
 }
+pub mod g4c {
+    use garnish_lang_traits::{GarnishData, TypeConstants};
+    pub fn ctl_no_lower_bound<D: GarnishData>(this: &D, list: D::Size, index: D::Number) -> Result<Option<D::Size>, D::Error> {
+        this.get_list_item(list, index)
+    }
+    pub fn ok_lower_bound<D: GarnishData>(this: &D, list: D::Size, index: D::Number) -> Result<Option<D::Size>, D::Error> {
+        if index < D::Number::zero() {
+            return Ok(None);
+        }
+        this.get_list_item(list, index)
+    }
+}
+pub mod d1c {
+    pub enum Cell {
+        CharList(usize),
+        Char(char),
+    }
+    pub fn ctl_header_counts_trimmed(out: &mut Vec<Cell>, from: &str) {
+        let name = from.trim_matches(':');
+        out.push(Cell::CharList(name.chars().count()));
+        for c in from.chars() {
+            out.push(Cell::Char(c));
+        }
+    }
+    pub fn ok_header_counts_written(out: &mut Vec<Cell>, from: &str) {
+        out.push(Cell::CharList(from.chars().count()));
+        for c in from.chars() {
+            out.push(Cell::Char(c));
+        }
+    }
+}
+pub mod w6 {
+    pub struct S {
+        pub cells: Vec<u32>,
+        pub table: Vec<(u32, usize)>,
+    }
+    impl S {
+        fn push(&mut self, v: u32) -> Result<usize, String> {
+            self.cells.push(v);
+            Ok(self.cells.len())
+        }
+        pub fn ctl_reuses_computed(&mut self, v: u32) -> Result<usize, String> {
+            if let Some((_, text_index)) = self.table.iter().find(|e| e.0 == v).cloned() {
+                return Ok(text_index - 1);
+            }
+            let i = self.push(v)?;
+            Ok(i)
+        }
+        pub fn ok_returns_written(&mut self, v: u32) -> Result<usize, String> {
+            let i = self.push(v)?;
+            Ok(i)
+        }
+    }
+}
